@@ -369,14 +369,22 @@ def runaway_violation(h, op, exc):
 
 def op_interrupted_advance(h, m, k):
     """advance(m) during which the k-th posterior evaluation raises; the caller catches the error and keeps the
-    sampler.  Returns True if the failure fired (False: the run needed fewer than k evaluations)."""
+    sampler.  The exception is the harness' own InjectedFailure or (every third k) a StopIteration, as raised by a
+    posterior that reads from an exhausted iterator.  Returns True if the failure fired and reached the caller,
+    False if the run needed fewer than k evaluations, "swallowed" if it fired but advance() returned normally."""
     c = rctx.get()
-    c.eval_failures[h.target.tag] = int(k)
+    exc_type = StopIteration if int(k) % 3 == 0 else rctx.InjectedFailure
+    c.eval_failures[h.target.tag] = (int(k), exc_type)
+    fired0 = c.stats["fault_posterior_raised_mid_operation"]
     try:
         op_advance(h, m)
-        return False
+        return "swallowed" if c.stats["fault_posterior_raised_mid_operation"] > fired0 else False
     except rctx.InjectedFailure:
         return True
+    except LibRaised as e:
+        if isinstance(e.exc, StopIteration) and c.stats["fault_posterior_raised_mid_operation"] > fired0:
+            return True
+        raise
     finally:
         c.eval_failures[h.target.tag] = None
 
